@@ -210,6 +210,9 @@ func (x *Exec) callPatternMatches(pattern, key string, c *ssa.CallCommon) bool {
 	if i := strings.LastIndex(pattern, "/"); i >= 0 && !strings.Contains(pattern[i:], ")") && !strings.Contains(pattern[i:], ".") {
 		pattern, seg = pattern[:i], pattern[i+1:]
 	}
+	if i := strings.Index(key, "["); i > 0 && !strings.Contains(pattern, "[") && strings.HasSuffix(key, "]") && !strings.Contains(key[:i], "(") {
+		key = key[:i] // an instantiation of a generic function is matched by the generic's name
+	}
 	short := key[strings.LastIndex(key, "/")+1:]
 	if !(short == pattern || strings.HasSuffix(short, "."+pattern) || key == pattern) {
 		return false
